@@ -27,7 +27,7 @@ TRUSTED = ["CPython gc / sys / threading / warnings / traceback module attribute
 
 OPTS = ["gc", "gcopt", "coverage", "profile", "buffer"]
 ENDINGS = ["pass", "fail", "stop", "hook-raises", "interrupt", "ttd-raises-skip", "ttd-raises-fail", "ttd-raises-interrupt",
-           "ttd-raises-failskip"]
+           "ttd-raises-failskip", "chdir"]
 FIELDS = ["gcThr", "gcDbg", "tbFormat", "tbPrint", "trace", "thrTrace", "setTrace", "profile", "warn", "stdout", "stderr"]
 
 
@@ -37,7 +37,7 @@ def make_world(ctx, ending, idx):
     kinds = {"pass": ["pass"], "fail": ["pass", "fail", "error"], "stop": ["fail", "pass"],
              "hook-raises": ["pass"], "interrupt": ["pass"], "ttd-raises-skip": ["skipBody"],
              "ttd-raises-fail": ["fail", "subFail2"], "ttd-raises-interrupt": ["pass"],
-             "ttd-raises-failskip": ["subFailThenSkip", "failThenSkipTearDown"]}[ending]
+             "ttd-raises-failskip": ["subFailThenSkip", "failThenSkipTearDown"], "chdir": ["pass", "fail"]}[ending]
     w = worlds.gen_world(rng, n_layers=2, tests_per_layer=(1, 2), kinds=kinds, p_fault=0.0, p_write=0.3)
     if ending == "hook-raises":
         for l in w["layers"]:
@@ -50,6 +50,9 @@ def make_world(ctx, ending, idx):
             if l["kind"] != "unit":
                 l["testTearDown"] = True
                 l["testTearDownRaises"] = True
+    if ending == "chdir" and w["tests"]:
+        # a test that leaves the process in another directory (relative paths of later tear-downs break)
+        w["tests"][0]["body"]["chdir"] = True
     if ending in ("interrupt", "ttd-raises-interrupt") and w["tests"]:
         w["tests"][-1]["body"]["exc"] = "interrupt"
     d = os.path.join(ctx.tmp, "g%04d" % idx)
@@ -73,6 +76,10 @@ def run_case(ctx, opts, ending, idx, pre_trace=False):
     if ending == "stop":
         args.append("-x")
     case = {"dir": d, "args": args, "pre_trace": pre_trace}
+    if "gcopt" in opts and idx % 3 == 0:
+        # the flag the run asks for is already set before the run
+        import gc as _gc
+        case["pre_gc_debug"] = _gc.DEBUG_UNCOLLECTABLE | (_gc.DEBUG_COLLECTABLE if idx % 2 else 0)
     env = dict(os.environ)
     env.pop("ZTR_TRACE", None)
     p = subprocess.run([common.PY, os.path.join(common.VERIF, "harness", "globals_worker.py"), json.dumps(case)],
